@@ -55,6 +55,13 @@ func c10buildBgzf(c c10case) ([]byte, []byte) {
 	var orig []byte
 	for _, b := range c.Blocks {
 		d := bytesOf(b)
+		if len(b) == 3 && b[0] > 255 {
+			// [n, seed, period]: n bytes of a periodic pattern
+			d = make([]byte, b[0])
+			for j := range d {
+				d[j] = byte(b[1]*29 + (j%b[2])*7 + j/b[2]/64)
+			}
+		}
 		orig = append(orig, d...)
 		w.Write(d)
 		w.Flush()
